@@ -1,13 +1,10 @@
 (* C16 model: certificate-exchange server (range arithmetic GENERATED in Gen/ServerGen.v),
    client sequencing, and the poller loop over arbitrary responder behaviour.  No proofs here. *)
 From Coq Require Import ZArith List Bool.
-From F3 Require Import GoInt ServerGen.
+From F3 Require Import GoInt ListX ServerGen.
 Import ListNotations.
 Open Scope Z_scope.
 
-(* consecutive instances a, a+1, ..., a+n-1 *)
-Fixpoint zseq (a : Z) (n : nat) : list Z :=
-  match n with O => [] | S k => a :: zseq (a + 1) k end.
 
 (* certstore.GetRange(start, end) over a store holding exactly [sfirst, pending): inclusive
    range, stops at the first missing instance *)
